@@ -31,6 +31,13 @@ type adUnacked struct {
 	FnDone bool
 }
 
+// adErrEv: a dequeue the consuming dispatcher answers with a report on Errs() - certainly
+// (an entry that cannot be decoded) or possibly (a refused dequeue, an entry that may decode).
+type adErrEv struct {
+	Seq  uint64
+	Sure bool
+}
+
 type adCall struct {
 	Seq  uint64
 	Op   string // enq deq ack len purge
@@ -70,6 +77,8 @@ type simAdapter struct {
 	lens     []lenObs
 	enqIDs   []string // job ids in the order the adapter stored them (parsed from the bytes)
 	deliveredBad []bool // per delivered corrupted entry: might it still decode?
+	burstLeft    int       // FDeqBurst refusals still to come
+	errEvents    []adErrEv // dequeues after which the consumer's dispatcher may (or must) report an error
 	notifies []int // per subscriber: delivered notifications
 	notifyAt [][]uint64 // per subscriber: when each one was delivered
 	lostRace int
@@ -82,7 +91,7 @@ func (wd *World) adapterFor(qc QCfg, prio bool) *simAdapter {
 	if wd.root.sharedAd != nil {
 		return wd.root.sharedAd
 	}
-	a := &simAdapter{root: wd.root, prio: prio, cfg: qc, faultsOn: true}
+	a := &simAdapter{root: wd.root, prio: prio, cfg: qc, faultsOn: true, burstLeft: qc.FDeqBurst}
 	if qc.Kind >= qkDist && wd.root.cfg.Consumers > 0 {
 		wd.root.sharedAd = a
 	}
@@ -204,11 +213,20 @@ func (a *simAdapter) DequeueWithAckId() (any, bool, string) {
 	if i < 0 {
 		a.lostRace++
 		a.log("deq", -1, "", false)
+		a.errEvents = append(a.errEvents, adErrEv{a.calls[len(a.calls)-1].Seq, false})
+		return nil, false, ""
+	}
+	if a.faultsOn && a.burstLeft > 0 {
+		a.burstLeft--
+		a.FiredDeq++
+		a.log("deq", -1, "", false)
+		a.errEvents = append(a.errEvents, adErrEv{a.calls[len(a.calls)-1].Seq, false})
 		return nil, false, ""
 	}
 	if a.faultsOn && a.cfg.FDeq > 0 && simrt.Chance(a.cfg.FDeq) {
 		a.FiredDeq++
 		a.log("deq", -1, "", false)
+		a.errEvents = append(a.errEvents, adErrEv{a.calls[len(a.calls)-1].Seq, false})
 		return nil, false, ""
 	}
 	e := a.pending[i]
@@ -228,6 +246,7 @@ func (a *simAdapter) DequeueWithAckId() (any, bool, string) {
 	}
 	if e.Bad != 0 {
 		a.deliveredBad = append(a.deliveredBad, e.Bad == 2 || e.Bad == 5)
+		a.errEvents = append(a.errEvents, adErrEv{a.calls[len(a.calls)-1].Seq, !(e.Bad == 2 || e.Bad == 5)})
 		a.root.rec.probes[pbBadEntry]++
 	}
 	a.root.rec.adDeq(a, e.Sub, id)
